@@ -192,27 +192,28 @@ theorem C01_protection_off (e : Engines) (hwf : EnginesWF e) (c : Conf) (u : Ups
   obtain ⟨ql, hql, hnf, _⟩ := (handleMain_forward e hwf c u q hpre hb hs hob).1 happ
   exact ⟨ql, hnf, by unfold handle; rw [shortCircuit_none c q hdom, hql]⟩
 
-/-- … and with protection off nothing is ever recorded as filtered, rewrites and hosts included. -/
+/-- … and with protection off nothing is ever recorded as filtered, whatever the
+rewrite table and the hosts container hold. -/
 theorem C01_protection_off_never_filtered (e : Engines) (c : Conf) (q : Query)
     (hp : protectionOn c = false) (res : Result)
     (h : checkHost e c (trimDot q.name) q.qtype (settings c) = .ok res) : res.isFiltered = false := by
   have hoff : (protectionOn c && filteringOn c) = false := by simp [hp]
   unfold checkHost at h
-  split at h
-  · cases h; rfl
-  · dsimp only at h
-    split at h
-    · cases h
-      rename_i hr
-      split at hr
-      · unfold rewriteResult at hr ⊢; split <;> rfl
+  by_cases hh : trimDot q.name = []
+  · simp [hh] at h; rw [← h]
+  · simp only [hh, if_false] at h
+    by_cases h1 : (if (settings c).filtering = true then rewriteResult e c (lower (trimDot q.name)) q.qtype else {}).reason = .rewritten
+    · rw [if_pos h1] at h
+      cases h
+      split
+      · exact rewriteResult_notFiltered _ _ _ _
       · rfl
-    · split at h
-      · cases h
-        unfold matchSysHosts
-        repeat' split
-        all_goals rfl
-      · rw [matchHost_off e c _ _ hoff] at h
+    · rw [if_neg h1] at h
+      by_cases h2 : (matchSysHosts e c (lower (trimDot q.name)) q.qtype (settings c)).reason ≠ .notFound
+      · rw [if_pos h2] at h
+        cases h
+        exact matchSysHosts_notFiltered _ _ _ _ _
+      · rw [if_neg h2, matchHost_off e c _ _ hoff] at h
         simp only [ne_eq, not_true_eq_false, if_false] at h
         cases h
         rw [checkAfterRules_eq]
@@ -235,9 +236,12 @@ theorem C01_client_filtering_off (e e' : Engines) (c : Conf) (u : Upstream) (q :
     · dsimp only
       have hs1 : ∀ e0 : Engines, matchSysHosts e0 c (lower (trimDot q.name)) q.qtype (settings c) = {} := by
         intro e0; unfold matchSysHosts; simp [hfs]
-      rw [hfs, hs1 e, hs1 e', matchHost_off e c _ _ hoff, matchHost_off e' c _ _ hoff]
-      unfold checkAfterRules matchBlockedServices checkSafeBrowsing checkParental
-      rw [hsvc, hsb, hpa]
+      have hca : checkAfterRules e (lower (trimDot q.name)) (settings c) =
+          checkAfterRules e' (lower (trimDot q.name)) (settings c) := by
+        unfold checkAfterRules matchBlockedServices checkSafeBrowsing checkParental
+        rw [hsvc, hsb, hpa]
+      simp only [hfs, Bool.false_eq_true, if_false, hs1 e, hs1 e', matchHost_off e c _ _ hoff,
+        matchHost_off e' c _ _ hoff, hca]
   unfold handle handleMain
   rw [hck]
   cases shortCircuit c q with
@@ -319,8 +323,10 @@ theorem C01_rewrite_independent_of_rules (e e' : Engines) (c : Conf) (u : Upstre
     handle e c u q = handle e' c u q := by
   have hrw' : legacyRewritten e' c (qhost q) q.qtype = true := by
     unfold legacyRewritten at hrw ⊢; rw [← hsrt]; exact hrw
-  rw [C01_rewrite_precedes_block e c u q hdom hf hq hrw, C01_rewrite_precedes_block e' c u q hdom hf hq hrw']
-  simp only [rewriteCanon, rewriteIPs, hsrt]
+  have h1 : rewriteCanon e c q = rewriteCanon e' c q := by simp only [rewriteCanon, hsrt]
+  have h2 : rewriteIPs e c q = rewriteIPs e' c q := by simp only [rewriteIPs, hsrt]
+  rw [C01_rewrite_precedes_block e c u q hdom hf hq hrw, C01_rewrite_precedes_block e' c u q hdom hf hq hrw',
+    h1, h2]
 
 /-- The hosts container answers before the rule engines as well (A / AAAA / PTR
 it knows), protection on or off. -/
@@ -384,10 +390,9 @@ theorem C01_hosts_precede_block (e : Engines) (c : Conf) (u : Upstream) (q : Que
               | nil => rw [hl] at this; cases this
               | cons _ _ => rfl
           simp [hemp] at hs
-    · unfold matchSysHosts at hs ⊢
-      repeat' split at hs
-      all_goals first | (exact absurd rfl hs) | skip
-      all_goals (repeat' split) <;> first | (exact ⟨rfl, rfl⟩) | (exact absurd rfl hs) | skip
+    · rcases matchSysHosts_reason e c (qhost q) q.qtype (settings c) with h | h
+      · exact absurd h hs
+      · exact ⟨h, matchSysHosts_notFiltered _ _ _ _ _⟩
   refine ⟨(matchSysHosts e c (qhost q) q.qtype (settings c)).hostVals, ?_⟩
   unfold handle
   rw [shortCircuit_none c q hdom]
